@@ -120,6 +120,11 @@ func (op *Op) body() []byte {
 func (r *runner) call(op *Op) {
 	s := r.s
 	p := r.proc(op)
+	if p != nil && !p.Alive() {
+		// a dead process makes no calls
+		s.Rec.Emit("drv", "Skip", "who", op.Who, "api", op.API)
+		return
+	}
 	switch op.API {
 	case "next":
 		if op.Who == "rt" || op.Who == "" {
@@ -247,7 +252,7 @@ func (r *runner) settle(op *Op) error {
 	r.mu.Lock()
 	ch := r.pending[op.Tag]
 	r.mu.Unlock()
-	deadline := time.Now().Add(r.opWait)
+	deadline := time.Now().Add(500 * time.Millisecond)
 	name := strings.TrimPrefix(strings.TrimPrefix(op.Who, "ext:"), "int:")
 	for {
 		if ch != nil {
@@ -265,7 +270,10 @@ func (r *runner) settle(op *Op) error {
 			return nil
 		}
 		if time.Now().After(deadline) {
-			return hangError{fmt.Sprintf("settle %s/%s: neither returned nor parked", op.Tag, op.Who)}
+			// e.g. parked on an object that a reset has dropped from the registration maps: the driver goes on,
+			// the trace decides
+			r.s.Rec.Emit("drv", "SettleGaveUp", "who", op.Who, "tag", op.Tag)
+			return nil
 		}
 		time.Sleep(200 * time.Microsecond)
 	}
